@@ -284,6 +284,15 @@ def check(pm: ProgramModel, ctx: Ctx) -> None:
                               "get_features of every constraint returns exactly the names written",
                               bad=f"document {label}: " + "; ".join(badn[:2]))
         after_failure(pm, ctx, docs)
+        # the reading histories of the round-trip checks, per reader that has a writer: read - caller edits the result - read
+        # again (new reader object, and the same one), file replaced, constraint-free documents
+        from ..codec import Codec
+        for w_, r_, kw_ in (("UVLWriter", "UVLReader", {"list_attr": True}), ("JSONWriter", "JSONReader", {"list_attr": True}),
+                            ("AFMWriter", "AFMReader", {"abstract": False}), ("FeatureIDEWriter", "FeatureIDEReader", {}),
+                            ("GlencoeWriter", "GlencoeReader", {"abstract": False})):
+            if pm.has_cls(w_) and pm.has_cls(r_):
+                opts = {"ctc_compare": "semantic", "ctc_names": False} if r_ != "UVLReader" else {"ctc_names": False}
+                Codec(pm, ctx, w_, r_, "C02", diff_opts=opts, wsetup=both, rsetup=both).reader_reuse(mb, rule=f"REUSE:{r_}", **kw_)
     sites(pm, ctx, executed)
     mechanism(pm, ctx, mb)
     ctx.floor("C02", "obligations", len(ctx.obligations), 30)
